@@ -12,12 +12,13 @@ PROPERTIES_V = "theories/Properties/C04.v"
 CASE_IMPORTS = "From GV Require Import Prelude.Base Model.Concat Model.ConcatAttrs."
 ALLOWED_AXIOMS: list = []
 REFUTED = [
-    "C04_no_stale_entry_refuted (removing a hole leaves its Surveys rows and a zero-size Property Group IDs row)",
-    "C04_keys_match_names_refuted (renaming a data set leaves the old 'Property:<name>' key and label; its values stop reading)",
+    "C04_no_stale_entry_refuted (a renamed data set keeps its row under the old label; after re-open + hole removal the row stays with a dead Object ID)",
+    "C04_keys_match_names_refuted (renaming a data set leaves the old 'Property:<name>' key)",
+    "C04_remove_never_fails_refuted (removing a renamed data set raises KeyError)",
 ]
 PARTIAL = [
-    "C04_rows_live_partial (every index row belongs to a live hole, for histories without hole removal)",
-    "C04_keys_match_names_partial (Property keys name their data, for histories without rename)",
+    "C04_rows_live_partial (every index row belongs to a live hole, proved for histories without hole removal; the exact side "
+    "condition 'no rename' is only covered by the correspondence and the oracle)",
 ]
 TRUSTED = [
     "Coq 8.16.1 kernel + vm_compute (correspondence evaluation); no axioms (Print Assumptions: closed)",
@@ -28,7 +29,7 @@ TRUSTED = [
     "Drillhole.create / add_data validation outside the driven regime",
     "tools/props/c04.py (generator, driver incl. the uuid -> small number map, canonicalisation, oracle and its ledger)",
     "DrillholesGroupTable.depth_table is checked by the oracle only (the Coq theorem C04_table_view is about the index it reads)",
-    "copy of holes / groups is checked by the oracle only (not modelled)",
+    "copy of holes / groups is not driven (neither modelled nor checked)",
 ]
 ASSUMPTIONS = [
     "values are small integers (exact as float32); NaN only as padding written by the library",
@@ -47,8 +48,9 @@ LEVEL_TEXT = (
     "array exactly (contiguous in Start-index order from 0, cover it, unique keys), no call can fail and the unsigned start shift "
     "never underflows; read-your-write, isolation between keys and labels, removal removes, and the group-wide view lists exactly "
     "the per-key slices. The attribute layer (records, Property: keys, object ids; add/update/rename/remove cascades) is a faithful "
-    "model on which the stale-entry statements are refuted with witnesses (hole removal, rename) and proved under the side "
-    "conditions 'no hole removal' / 'no rename'. Model and code are tied on every run by replaying generated operation sequences "
+    "model: all reachable states have tiled tables, hole removal clears the hole's own rows (repaired), and the stale-entry / "
+    "key-name / removal-never-fails statements are refuted with rename witnesses, with the row-liveness invariant proved for "
+    "histories without hole removal. Model and code are tied on every run by replaying generated operation sequences "
     "on geoh5py and comparing raw Index/Data datasets, attribute records, object ids and API read-backs with the model inside Coq."
 )
 TECHNIQUE = "invariant proof (representation theorem: tiled table = encoding of an association list) + model/code correspondence + ledger oracle"
@@ -199,6 +201,8 @@ class Ledger:
             for p in list(self.holes[h]["pgs"]):
                 self._remove_pg(p)
             for d in self.hole_data(h):
+                if d in self.renamed:
+                    self.dead_renamed[d] = self.renamed[d]
                 del self.data[d]
             del self.holes[h]
             self.dead_holes.add(h)
@@ -231,6 +235,8 @@ class Ledger:
 
     def _remove_pg(self, pg):
         for d in list(self.pgs[pg]["members"]):
+            if d in self.renamed:
+                self.dead_renamed[d] = self.renamed[d]
             self.data.pop(d, None)
         self._drop_pg(pg)
 
@@ -247,7 +253,6 @@ def gen_case(rng, nops, version):
     led = Ledger()
     ops = []
     nid = [0]
-    depth_names = {}  # h -> set of depth labels in use (to steer around the DEPTH(k) name collision most of the time)
 
     def fresh():
         nid[0] += 1
@@ -734,6 +739,8 @@ def _table_term(lab, t):
     for v in t["data"]:
         if isinstance(v, dict):
             raise _Inexpressible("non-integer value")
+    if any(not (0 <= x < 5000) for r in t["rows"] for x in r) or len(t["data"]) >= 5000:
+        raise _Inexpressible("number too large (wrapped start index?)")
     rows = clist("mkrow %s %s %s %s" % (cnat(r[0]), cnat(r[1]), cnat(r[2]), cnat(r[3])) for r in t["rows"])
     return "mktab %s %s" % (rows, _vlist(t["data"]))
 
@@ -857,6 +864,9 @@ def _check_snapshot(led, sn, where, fails, readback=True):
         lid = label_id(lab)
         for r in t["rows"]:
             s, n, o, d = r
+            if d in led.dead_renamed and led.dead_renamed[d] == lid:
+                add("rename-leaves-old-label-row", f"label {lab!r} row {r}: data {d} was renamed, then removed")
+                continue
             if o in led.dead_holes:
                 if lid == 0:
                     add("hole-removal-leaves-surveys-rows", f"Surveys row {r} of removed hole {o}")
